@@ -115,6 +115,45 @@ def check(run):
         return sum(1 for d in direct.values() if d) >= 2
     results = propcommon.run_cases(run, cases, runoracle.c04_oracle, nontrivial)
     check_resolution(run, cases, results)
+    # a dependency that neither succeeded nor failed: its body left through a BaseException (sys.exit()); its task ends with an
+    # exception result and everything that depends on it -- over any number of hops -- must be skipped all the same
+    base = engine.gen_cases(run, 30 if run.tier == "quick" else 500,
+                            profile=dict(PROFILE, raise_kinds=["Base", "Base", "Exception"], p_fail=0.3, p_raise_in_fail=0.8, p_dep=0.8),
+                            threads=(1, 2, 3), prefix="db")
+    nohooks = {"setup_suite": None, "teardown_suite": None, "setup_test": None, "teardown_test": None}
+
+    def tst(name, rank, deps, body):
+        return {"name": name, "disabled": False, "rank": rank, "deps": deps, "args": [], "params": {}, "body": body}
+    for k, (hops, nthreads, cross) in enumerate([(3, 1, False), (4, 2, False), (3, 2, True), (5, 3, True)]):
+        d = copy.deepcopy(base[0])
+        d["id"] = "dbd%d" % k
+        d.pop("interrupt_at", None)
+        d.pop("scheduled_project", None)
+        d["options"].update({"nb_threads": nthreads, "stop_on_failure": False, "force_disabled": False})
+        names = ["t%d" % (10 + i) for i in range(hops + 1)]
+        suite_of = ["s6" if (not cross or i % 2 == 0) else "s7" for i in range(hops + 1)]
+        tests = {"s6": [], "s7": []}
+        for i, n in enumerate(names):
+            tests[suite_of[i]].append(tst(n, i, ["%s.%s" % (suite_of[i - 1], names[i - 1])] if i else [],
+                                          [["raise", "Base"]] if i == 0 else [["mark", i]]))
+        d["project"] = {"fixtures": [], "suites": [{"name": sn, "disabled": False, "rank": j, "hooks": nohooks, "injected": [],
+                                                     "tests": tests[sn], "subs": []}
+                                                    for j, sn in enumerate(["s6", "s7"]) if tests[sn]]}
+        base.append(d)
+    for c in base:
+        c["base_exception"] = True
+    bres = engine.cosim(run, base, layers=(1, 2))
+    for c in base:
+        r = bres.get(c["id"]) or {"outcome": ["hang", "no result"]}
+        run.evaluations += 1
+        run.count("base_exception_cases")
+        run.count("base_exception_outcome:" + str((r.get("outcome") or ["?"])[0]))
+        trans, direct = runoracle.transitive_deps(c["project"])
+        if any(len(v) >= 2 for v in trans.values()) and (r.get("outcome") or ["?"])[0] == "raised":
+            run.nontrivial.add(c["id"])
+            run.count("base_exception_cases_with_a_chain_of_two_hops_or_more")
+        for sig, text in runoracle.c04_oracle(c, r):
+            run.violation(sig, text, {"case": c, "outcome": r.get("outcome")})
     run.coverage["rule"] = ("seeded random projects biased towards depends_on (chains, diamonds, later-declared and cross-suite "
                             "targets) with failing / disabled tests, some with unrelated tests filtered out; plus a malformed stream: "
                             "unknown paths, cycles of length 1..6, dependencies excluded by the filter (must be rejected before anything "
